@@ -179,8 +179,8 @@ def packet_cases(quick):
             for will in (False, True):
                 for wq in ((0, 1, 2) if will else (0,)):
                     for wr in ((False, True) if will else (False,)):
-                        for user in (None, 'u', 'üser€'):
-                            for pw in ((None,) if user is None else (None, 'p', 'pässwörd€', '\U0001F600' * 3)):
+                        for user in (None, 'u', 'üser€', ''):
+                            for pw in ((None,) if user is None else (None, 'p', 'pässwörd€', '\U0001F600' * 3, '')):
                                 for ka in KEEPALIVES:
                                     for cid in ('', 'c', 'c' * 23, 'clïent-€'):
                                         f = dict(version=ver, cleanStart=clean, keepalive=ka, clientId=cid, username=user,
